@@ -131,4 +131,25 @@ CLAIMS["C03"] = {
     "technique": "handler-table exhaustiveness + CFG dominance/post-dominance of the header flag + normal forms of layout arithmetic (AST)",
 }
 
+CLAIMS["C04"] = {
+    "text": "Decides that the lazy table hands back the original record bytes only when no field was assigned (and the target class is compatible), that in the modified write a field "
+            "contributes its new column iff it was assigned and its original text otherwise, that every derivation of an extractor or buffer (selection, concatenation, in-place compaction, "
+            "symbolically executed) treats all row-aligned stores alike - same index on every per-row store, cumulative data-size shift on offset-typed stores only, contiguity only if all "
+            "operands are contiguous, field starts re-based by exactly the record start's move - that no per-object memo outlives a rebinding of what it read, that trailing columns are "
+            "fetched from the entry type's field count to the record end, that record ends come from raw line ends (CRLF records keep their newline when selected), and that deriving a lazy "
+            "table never shares or updates the source's overlay. Byte-for-byte write-back of selections is exactly the coherence of these offset tables under every derivation.",
+    "note": _NOTE + "Not decided: numeric correctness of offsets on concrete data; CRLF field text.",
+    "technique": "aligned-state (typestate of row-aligned stores) comparison of constructor calls + symbolic execution of compaction + CFG guard facts (AST)",
+}
+CLAIMS["C05"] = {
+    "text": "Decides that the lazy table's three row-aligned views (file buffer, field cache, assigned overlay) are treated alike by selection, replace and concatenation, that per-operand "
+            "dicts are subscripted only with keys from an intersection of the operands' own dicts, that attribute assignment invalidates the materialised table and the cached field on every "
+            "path and is the overlay's only writer, that read() and read_chunk() share one laziness predicate, that the eager get_data and the lazy per-field access of every lazily readable "
+            "buffer class (26 bindings) go through the buffer's field accessors with (index, declared type) from the entry type's field order, and - shared with C03/C04/C16 - that written "
+            "types have formatters, extractor derivations are aligned and BAM memos are coherent; buffer classes whose make_header reads a context are paired with a get_data that sets it "
+            "(BAM is not: recorded finding).",
+    "note": _NOTE + "Known findings: eager VCF with typed INFO and eager BAM tables cannot be written. Not decided: value equality of the two parse routes.",
+    "technique": "aligned-state and key-provenance analysis of the lazy class + post-dominance of invalidation + sibling call-structure comparison (AST, CFG)",
+}
+
 NOT_APPLICABLE = {}
